@@ -199,9 +199,13 @@ func tenthText(k int) string {
 // H_C15_kinds_str: numbers of every Go numeric kind against strings: the
 // order of the number's decimal text against the string, in both
 // directions.
-func H_C15_kinds_str() {
-	kind := verif.Choose("kind", 7)
+// numOfKind returns a number of the chosen Go numeric kind with its %v text.
+func numOfKind() (any, string) {
+	kind := verif.Choose("kind", 14)
 	k := verif.IntRange("k", -12, 11)
+	if kind >= 7 {
+		verif.Assume(k >= -3 && k <= 4) // the remaining integer kinds: a narrower value range
+	}
 	var num any
 	var text string
 	switch kind {
@@ -222,7 +226,30 @@ func H_C15_kinds_str() {
 		num, text = float32(k)/10, tenthText(k)
 	case 6:
 		num, text = float64(k)/10, tenthText(k)
+	case 7:
+		num, text = k, itoa(k)
+	case 8:
+		num, text = int16(k), itoa(k)
+	case 9:
+		num, text = int8(k), itoa(k)
+	case 10:
+		verif.Assume(k >= 0)
+		num, text = uint(k), itoa(k)
+	case 11:
+		verif.Assume(k >= 0)
+		num, text = uint32(k), itoa(k)
+	case 12:
+		verif.Assume(k >= 0)
+		num, text = uint64(k), itoa(k)
+	case 13:
+		verif.Assume(k >= 0)
+		num, text = byte(k), itoa(k)
 	}
+	return num, text
+}
+
+func H_C15_kinds_str() {
+	num, text := numOfKind()
 	alphabet := "0129.-"
 	if verif.Tier() > 0 {
 		alphabet = "0123456789.-"
@@ -237,8 +264,18 @@ func H_C15_kinds_str() {
 	}
 	verif.Assert(r == want, "decimal-text-order")
 	verif.Assert(Compare(s, num) == -r, "antisymmetric")
-	// the number's own text, and that text extended, as the string operand
+	verif.Reach("end")
+}
+
+// H_C15_kinds_other: every numeric kind against its own text, that text
+// extended by a digit, and the remaining scalar kinds (booleans, NULL).
+func H_C15_kinds_other() {
+	num, text := numOfKind()
 	verif.Assert(Compare(num, text) == 0 && Compare(text, num) == 0, "equal-to-own-text")
 	verif.Assert(Compare(num, text+"0") == -1 && Compare(text+"0", num) == 1, "below-extended-text")
+	for _, other := range []any{true, false, nil} {
+		ro := Compare(num, other)
+		verif.Assert((ro == -1 || ro == 0 || ro == 1) && Compare(other, num) == -ro, "other-kinds-antisymmetric")
+	}
 	verif.Reach("end")
 }
